@@ -93,9 +93,15 @@ func getScope(tier string) *scope {
 		}
 	}
 	for pi, p := range s.progs {
+		if p.DescOnly {
+			continue
+		}
 		s.groups = append(s.groups, groupDef{name: "ids/" + p.Name, kind: "ids", prog: pi})
 	}
 	for pi, p := range s.progs {
+		if p.DescOnly {
+			continue
+		}
 		for m := 0; m < 3; m++ {
 			s.groups = append(s.groups, groupDef{name: fmt.Sprintf("keys-go/%s/map=%d", p.Name, m), kind: "keys-go", prog: pi, mapWay: m})
 		}
